@@ -12,6 +12,8 @@ import json, os, glob, shutil, subprocess, sys, tempfile, concurrent.futures
 
 ENV = dict(os.environ, GOFLAGS="-mod=mod", GOPROXY="off", GOSUMDB="off", GOTOOLCHAIN="local", GOWORK="off", GEDCHECK_NO_EVIDENCE="1")
 PROPS = [c["property_id"] for c in json.load(open("/verif/MANIFEST.json"))["checks"]]
+if os.environ.get("REFCHECK_PROPS"):
+    PROPS = os.environ["REFCHECK_PROPS"].split(",")
 
 
 def sh(cmd, cwd, env=ENV, timeout=3600):
